@@ -41,6 +41,13 @@ def main():
                         print("OK iter", flush=True)
                     else:
                         print("OK value", flush=True)
+                elif a[0] == "drop":
+                    # the consumer walks away from the iterable (e.g. `break` in a for loop): the generator is finalised
+                    it = its.pop(int(a[1]))
+                    if hasattr(it, "close"):
+                        it.close()
+                    del it
+                    print("OK dropped", flush=True)
                 elif a[0] == "take":
                     i, n = int(a[1]), int(a[2])
                     k = 0
